@@ -605,5 +605,5 @@ MANIFEST_ENTRY = {
     "-k*len above, exactly one level per region, adjacent regions never share a level, read-back under the Optimal test through the verified fill). "
     "Properness, 'never worse than FCFS', 'no stem movable lower' and 'nested => round brackets only' are corollaries of optimality of this model.",
     "note": "Trusted: the MILP solver returns a true optimum when it reports Optimal; PuLP API semantics; paper argument that Delta+1 levels suffice. Not decided: solver behaviour, floating-point integrality of varValue.",
-    "technique": "static analysis: symbolic MILP model extraction (index sets, evaluated coefficients and bounds, constraint families, name-field roles) from the ast + order-type truth table of the conflict test",
+    "technique": "static analysis: symbolic MILP model extraction - the model-building fragment is interpreted from the ast against a symbolic PuLP API model (sa/lpmodel.py: variables are symbols, arithmetic builds linear forms, nothing is solved) on every knotted order type of 2-3 arcs and six 4-stem shapes; each variable's meaning is taken from the program's own read-back (one-hot solutions); fallback: pattern reading of index sets, coefficients, constraint families and name-field roles",
 }
